@@ -39,11 +39,11 @@ def apply_targets(classes):
 
 
 R = 'dd.bdd._ReorderingContext.'
-PLUMBING = [T('dd.bdd._request_reordering', consts_spec={'REORDER_FACTOR': 2}),
+PLUMBING = [T('dd.bdd._request_reordering'),
             T(R + '__init__'), T(R + '__enter__'), T(R + '__exit__', variant='no-exception'),
             T(R + '__exit__', variant='signal', args={'ex_type': 'exc:_NeedsReordering'}),
             T(R + '__exit__', variant='other-exception', args={'ex_type': 'exc:ValueError'}),
-            T('dd.bdd._try_to_reorder._wrapper', env={'func': 'callable:FUNC'}, consts_spec={'GROWTH_FACTOR': 2}),
+            T('dd.bdd._try_to_reorder._wrapper', env={'func': 'callable:FUNC'}),
             T('dd.bdd._suspend_reordering._wrapper', env={'func': 'callable:FUNCQ'})]
 GC = [T(B + 'collect_garbage', variant='all'), T(B + 'collect_garbage', B + 'collect_garbage!roots', variant='roots')]
 
@@ -59,9 +59,13 @@ AOPS = [T(AF + '_apply', variant='and', args={'op': 'op:and'}), T(AF + '_apply',
         T(AF + '__invert__'), T(AF + '__and__'), T(AF + '__or__'), T(AF + 'implies'), T(AF + 'equiv'), T(AF + '__eq__'), T(AF + '__ne__')]
 AVIEWS = [T(ABD + 'succ'), T(AF + 'low'), T(AF + 'high'), T(AF + 'var'), T(AF + 'level'), T(AF + 'negated'), T(AF + 'ref')]
 
+ARITY = [T('dd._utils.assert_operator_arity', variant=o, args={'op': 'op:' + o, 'diagram_type': 'op:bdd'})
+         for o in sorted({sp for cls in SPELLINGS.values() for sp in cls}) + ['nonsense']]
+EXTREF = [T(B + 'incref', B + 'incref!external', variant='external'), T(B + 'decref', B + 'decref!external', variant='external')]
+
 TARGETS = {
     'C01': CORE + apply_targets(['not', 'and', 'or', 'xor', 'implies', 'equiv', 'diff', 'ite']) + AOPS
-    + [T(ABD + 'ite')] + aapply_targets(['~', 'and', '\\/', '#', '=>', '<->', '-', 'ite']),
+    + [T(ABD + 'ite')] + aapply_targets(['~', 'and', '\\/', '#', '=>', '<->', '-', 'ite']) + ARITY,
     'C02': [T(B + 'find_or_add'), T(B + '_ite'), T(B + '_init_terminal'), T(B + 'add_var'), T(B + 'declare'), T(B + 'incref'), T(B + 'decref'),
             T(B + 'var', B + 'var!body')] + GC,
     'C03': [T(B + '_quantify'), T(B + 'quantify', B + 'quantify!body'), T(B + 'forall'), T(B + 'exist')] + apply_targets(['forall', 'exists'])
@@ -78,7 +82,8 @@ TARGETS = {
     'C06': [T(B + 'incref'), T(B + 'decref'), T(B + 'ref'), T(B + 'find_or_add')] + GC,
     'C08': HANDLES + [T(ABD + 'var'), T(ABD + 'ite'), T(ABD + 'quantify'), T(ABD + 'forall'), T(ABD + 'exist'), T(ABD + 'succ'),
                       T(AF + 'low'), T(AF + 'high')] + aapply_targets(['not', '&', 'ite', 'forall']) + AOPS[:7]
-           + [T(B + '_init_terminal'), T(B + 'add_var')],   # declarations keep every count
+           + [T(B + '_init_terminal'), T(B + 'add_var')]   # declarations keep every count
+           + EXTREF + [T(B + '_add_int'), T(ABD + '__contains__')],
     'C09': PLUMBING + [T(B + 'ite', B + 'ite!body'), T(B + 'var', B + 'var!body'), T(B + 'rename', B + 'rename!body'),
                        T('dd.bdd.copy_bdd', variant='two-managers')],
     'C10': [T(B + 'is_essential'), T(B + '_support'), T(B + 'support', B + 'support!proved:names', variant='names'),
@@ -91,6 +96,6 @@ TARGETS = {
     'C17': [T(B + 'find_or_add'), T(B + 'add_var'), T(B + '_check_var'), T(B + '_next_free_level'), T(B + 'var_at_level'),
             T(B + 'level_of_var'), T(B + 'var', B + 'var!body'), T('dd.bdd.rename'), T(B + '_next_free_int')]
     + apply_targets(['not', 'and', 'ite', 'forall']) + PLUMBING[1:]
-    + [T(AF + '__init__'), T(ABD + '_wrap'), T(ABD + '_add_int'), T(ABD + 'var'), T(ABD + 'ite'), T(ABD + 'quantify')] + aapply_targets(['!', '||', 'ite']),
+    + [T(AF + '__init__'), T(ABD + '_wrap'), T(ABD + '_add_int'), T(ABD + 'var'), T(ABD + 'ite'), T(ABD + 'quantify')] + aapply_targets(['!', '||', 'ite']) + ARITY + [T(ABD + '__contains__'), T(B + '_add_int')],
     'C18': [T(B + 'succ')] + AVIEWS,
 }
